@@ -111,13 +111,15 @@ def run(ctx):
                 ctx.case(("adc-small", L, n, ot), {"ADC": [d, n, ot]} if L == 4 else None)
     for k in range(150 if T else 14):
         n = rnd.choice([2, 50, 1000, 9999, 10001, 20001, 2 ** 15 + 1] + ([2 ** 17] if T else []))
-        if k == 0:
-            n = 70001                  # one record beyond 2^16 samples in every run
+        if k in (0, 1):
+            n = 70001                  # records beyond 2^16 samples in every run (one with outliers, one without)
         rs = np.random.RandomState(100 + k)
-        dist = rnd.choice(["gauss", "uniform", "sine", "quantised"]) if k else "gauss"
+        dist = rnd.choice(["gauss", "uniform", "sine", "quantised"]) if k > 1 else "gauss"
         x = {"gauss": lambda: np.round(rs.randn(n) * 200), "uniform": lambda: np.round(rs.uniform(-500, 500, n)),
              "sine": lambda: np.round(400 * np.sin(np.arange(n) * 0.11)), "quantised": lambda: np.round(rs.randn(n) * 2)}[dist]()
         outl = n >= 10001 and rnd.random() < 0.8
+        if k in (0, 1):
+            outl = k == 0
         if outl:
             x[rs.randint(0, n)] = 5000
             x[rs.randint(0, n)] = -7000
@@ -128,6 +130,8 @@ def run(ctx):
         if np.min(srt[lag:] - srt[:n - lag]) == 0:
             continue          # degenerate full scale (hi = lo): outside the statement
         bits, ot = rnd.choice([1, 2, 4, 8, 12, 16, 15, 17]), rnd.choice(["n", "v"])
+        if k in (0, 1):
+            bits, ot = 12, "n"                       # the record beyond 2^16 samples is always judged at a fine resolution
         if dist == "quantised" and k % 2:
             adc_event([int(v) for v in x], bits, ot, 1.0, 3 + k % 3)        # small integer counts in int16 / uint8 / int8 arrays
         else:
